@@ -8,53 +8,29 @@ from . import spec as S
 
 C = 'awesomeyaml/nodes/composed.py::'
 CF = 'awesomeyaml/config.py::'
-Walk = z3.Function('Walk', sym.I, sym.I, sym.I)              # ghost: Walk(root, j) = j-th node yielded by the walk of root
 WalkLen = z3.Function('WalkLen', sym.I, sym.I)
-WalkIdx = z3.Function('WalkIdx', sym.I, sym.I, sym.I)        # ghost: position at which node x is yielded by the walk of root
 RelPath = z3.Function('RelPath', sym.I, sym.I, sym.PathSort)
 
 
-def walk_spec(root):
-    """the recursive tree walk yields every proper descendant exactly once (and nothing else)"""
-    j = z3.Int('!wj')
-    x = z3.Int('!wx')
-    n = WalkLen(root)
-    return z3.And(n >= 0,
-                  S.FA([j], z3.Implies(z3.And(0 <= j, j < n), z3.And(S.Desc(root, Walk(root, j)), Walk(root, j) > 0, WalkIdx(root, Walk(root, j)) == j)), patterns=[Walk(root, j)]),
-                  S.FA([x], z3.Implies(S.Desc(root, x), z3.And(0 <= WalkIdx(root, x), WalkIdx(root, x) < n, Walk(root, WalkIdx(root, x)) == x)), patterns=[S.Desc(root, x)]))
-
-
 def register(R):
-    def nwp_result(c, it):
-        root = c.ref('self')
-        r = it.run.alloc('list')
-        i = z3.Int('!wi')
-        it.heap.put_l(r, ListT(WalkLen(root), z3.Lambda([i], sym.mk_ref(Walk(root, i)))))
-        pref = c.a['prefix'].s if isinstance(c.a.get('prefix'), PathV) else z3.Empty(sym.PathSort)
-        return IterV('walk', it.heap.l(r), lambda x, root=root, pref=pref: z3.Concat(pref, RelPath(root, x)))
-
-    R.add(Contract(C + 'ComposedNode.ayns.nodes_with_paths', [P.node('self', 'ComposedNode')], name='walk', assume_only=True, pure=True,
-                   requires=lambda c: [('default-mode', z3.BoolVal(True))],
-                   ensures=[('walk', lambda c: walk_spec(c.ref('self')))], result=nwp_result, props=('C14', 'C08', 'C17'), opts={'bind_partial': True},
-                   note='recursive walk (recursive=True, include_self=False, duplicates allowed): yields every proper descendant exactly once with its path; '
-                        'ASSUMED (nested generator loops over child walks), covered by the bounded walk/lookup stand-in'))
-
     def any_required(c, h, root):
         x = z3.Int('!rx')
         return z3.Exists([x], z3.And(S.Desc(root, x), x > 0, c.eng.isinstance_term(h.cls(x), 'RequiredNode')))
 
     def cm_inv(c, L):
-        root = c.ref('cfg')
         ml = L.heap.l(r_of(L.t('missing')))
+        nodes, _paths = L.it           # what is iterated: the node list (and path table) of the walk result
         j = z3.Int('!mj')
-        return [('missing-iff-a-placeholder-was-seen', (ml.len > 0) == z3.Exists([j], z3.And(0 <= j, j < L.i, c.eng.isinstance_term(L.heap.cls(Walk(root, j)), 'RequiredNode')))),
+        return [('missing-iff-a-placeholder-was-seen', (ml.len > 0) == z3.Exists([j], z3.And(0 <= j, j < L.i, c.eng.isinstance_term(L.heap.cls(r_of(nodes.get(j))), 'RequiredNode')))),
                 ('len', ml.len >= 0), ('classes-stable', L.heap.arr('$cls') == L.entry_heap.arr('$cls'))]
 
+    from .c_walk import KEY as WALK
     R.add(Contract(CF + 'Config.check_missing', [P.node('cfg', 'ConfigDict')], pure=True,
+                   requires=lambda c: [S.subwf_clause(c.eng, c.pre, c.ref('cfg'))],
                    raises=[Raises('ValueError', when=lambda c: any_required(c, c.pre, c.ref('cfg')), exact=True, name='C14.fails-iff-a-required-placeholder-remains-anywhere-in-the-tree')],
                    loops={0: Loop(cm_inv, mod_locals=['path', 'node'], mod_fields=[], mod_at=lambda c, L: [(f, [r_of(L.loc['missing'].t)]) for f in ('$llen', '$litem')])},
-                   props=('C14',), opts={'use': {C + 'ComposedNode.ayns.nodes_with_paths': 'walk'}, 'no_search': True},
-                   note='relative to the assumed walk contract'))
+                   props=('C14',), opts={'use': {WALK: 'recursive-walk-no-prefix'}, 'no_search': True},
+                   note='over the PROVED contract of the tree walk (c_walk): sound + complete enumeration of the descendants'))
 
 
 def register_init(R):
